@@ -39,8 +39,14 @@ GridVerdicts(o) ==
 (* seeded real numbers (fatigue, concealment, ...) switch them off with case.methodref = FALSE    *)
 MethodRef(o) == ~(Has(o.case, "methodref") /\ ~o.case.methodref)
 
+(* every entry of a utility ranking reports its utility (the contracts below read it) *)
+UtilityValuesThere(o) ==
+  \A i \in DOMAIN o.resp.result : Has(o.resp.result[i], "evaluation") /\ Has(o.resp.result[i].evaluation, "value")
+
 MethodVerdicts(o) ==
   IF o.status # 200 THEN {}
+  ELSE IF IsUtility(Method(o)) /\ HasEval(o) /\ ~UtilityValuesThere(o)
+       THEN {Fail("C03", "entry-without-value", ""), Fail("C04", "entry-without-value", "")}
   ELSE IF ~MethodRef(o) \/ o.overflow > 0 THEN C01(o)
   ELSE IF C01(o) # {} THEN      \* a malformed ranking is reported as such; of the other contracts only the order / link
                                 \* contract of the utility methods (it guards itself against duplicate entries) is evaluated
